@@ -15,6 +15,7 @@ import (
 	"strings"
 	"sync"
 	"testing"
+	"time"
 
 	"github.com/dave/jennifer/jen"
 	"pgregory.net/rapid"
@@ -24,6 +25,7 @@ import (
 	"verif/internal/hx"
 	"verif/internal/recipe"
 	"verif/internal/rt"
+	"verif/internal/shrink"
 )
 
 // ---- (1) the API, enumerated from the repository's sources at check time ----
@@ -479,6 +481,11 @@ func TestC14(t *testing.T) {
 				}
 				dec.Draw = nil
 				c := progCase{Name: f, Src: recipe.Text(src), Forms: dec}
+				if hx.Safe(func() error { return checkProg(c) }) != nil {
+					c.Src = recipe.Text(shrink.Source(src, func(bs []byte) bool {
+						return hx.Safe(func() error { return checkProg(progCase{Name: c.Name, Src: recipe.Text(bs), Forms: c.Forms}) }) != nil
+					}, 15*time.Second))
+				}
 				if hx.One(r, ckP, c) && b.NonBaseline >= 5 {
 					r.NonTrivial(f)
 					r.Class("program_with_form_policy")
